@@ -94,6 +94,34 @@ var controls = []control{
 	{"switch-pushed-without-combine-check", []string{"C11", "C05"}, false, "rewriter/yield_rewrite.go", "\t\tchildren = r.combineIfNecessary(children) // for init containing yield\n\t\tchildren.push(switchStmt, kindTrival)", "\t\tchildren.push(switchStmt, kindTrival)", "RW.BLOCKSTATE"},
 	{"doc-comments-not-collected", []string{"C13"}, false, "rewriter/rewrite.go", "\t\tf.File.Comments = mergeComments(docComments(f.File), r.comments)\n", "\t\tf.File.Comments = mergeComments(nil, r.comments)\n", "RW.COMMENTS"},
 	{"test-suffix-unmapped", []string{"C16"}, true, "rewriter/compile.go", "\t\t\tfilename = strings.TrimSuffix(filename, testFileSuffix) + \"_test.go\"", "\t\t\tfilename = strings.TrimSuffix(filename, testFileSuffix) + \".go\"", "GEN.NAME"},
+	// --- controls for the remaining rules (one per rule that had none)
+	{"pid-in-file-header", []string{"C15"}, false, "rewriter/compile.go", "\tcomment := fmt.Sprintf(fileComment, defaultBuildTag)\n", "\tcomment := fmt.Sprintf(fileComment, defaultBuildTag) + fmt.Sprintf(\"// pid %d\\n\", os.Getpid())\n", "DET.SOURCES"},
+	{"test-mode-inverted", []string{"C15", "C16"}, false, "rewriter/etc.go", "var runningWithGoTest = flag.Lookup(\"test.v\") != nil ||", "var runningWithGoTest = flag.Lookup(\"test.v\") == nil ||", "DET.TESTMODE"},
+	{"gofile-check-disabled", []string{"C16"}, false, "cmd/cogen/main.go", "\tif goFile == \"\" {", "\tif goFile == \"\" && len(os.Args) > 99 {", "GEN.ENV"},
+	{"file-filter-accepts-all", []string{"C16"}, false, "rewriter/compile.go", "loader.WithFileFilter(func(f *loader.File) bool { return isCoFile(f.Filename) }),", "loader.WithFileFilter(func(f *loader.File) bool { _ = isCoFile(f.Filename); return true }),", "GEN.FILTER"},
+	{"custom-tag-ignored-by-loader", []string{"C16"}, false, "rewriter/compile.go", "\t\t\tloader.WithBuildTag(opt.buildTag),\n", "\t\t\tloader.WithBuildTag(defaultBuildTag),\n", "GEN.TAG"},
+	{"chan-iter-value-dropped", []string{"C10"}, false, "seq/iter.go", "\tc.v, ok = <-c.ch\n", "\t_, ok = <-c.ch\n", "ITER.CHAN"},
+	{"slice-iter-reads-first-element", []string{"C10"}, false, "seq/iter.go", "return pair[int, V]{Key: s.idx, Val: s.slice[s.idx]}", "return pair[int, V]{Key: s.idx, Val: s.slice[0]}", "ITER.LIVE"},
+	{"map-iter-skips-entries", []string{"C10", "C04"}, false, "seq/iter.go", "\treturn m.iter.Next()\n", "\tm.iter.Next()\n\treturn m.iter.Next()\n", "ITER.MAP"},
+	{"current-advances", []string{"C10"}, false, "seq/iter.go", "\treturn pair[int, any]{Key: i.i}\n", "\ti.i++\n\treturn pair[int, any]{Key: i.i - 1}\n", "ITER.PURE"},
+	{"redundant-return-removed-when-reachable", []string{"C01"}, false, "rewriter/yield_rewrite.go", "\t\t\t\t\tif r.isTerminating(X.Block(stmts...)) {\n\t\t\t\t\t\tbody.List = stmts", "\t\t\t\t\tif !r.isTerminating(X.Block(stmts...)) {\n\t\t\t\t\t\tbody.List = stmts", "RW.BRANCHCTX.RMRET"},
+	{"native-range-body-not-visited", []string{"C12"}, false, "rewriter/yield_rewrite.go", "\t\t\tr.rewriteBlockStmt(rg.Body, kindFor)\n", "\t\t\t_ = rg\n", "RW.DEEPVISIT"},
+	{"seq-used-under-other-name", []string{"C11"}, false, "rewriter/rewrite.go", "\t\t\tseqName = importSeqName\n", "\t\t\tseqName = pkgSeqName\n", "RW.IMPORT"},
+	{"block-without-ast-block", []string{"C01"}, false, "rewriter/yield_block.go", "\t\tblock:          X.Block(),\n", "", "RW.INV.BLOCK"},
+	{"post-runs-in-goroutine", []string{"C18"}, false, "rewriter/yield_ast.go", "\t\tBody: X.Block(post),\n", "\t\tBody: X.Block(&ast.GoStmt{Call: X.Call(&ast.FuncLit{Type: &ast.FuncType{Params: X.Fields(), Results: X.Fields()}, Body: X.Block(post)})}),\n", "RW.NOASYNC"},
+	{"range-lowering-declares-var", []string{"C13", "C14"}, false, "rewriter/range.go", "\t\tbody := X.Block(kv, n.Body)\n", "\t\tbody := X.Block(&ast.DeclStmt{Decl: &ast.GenDecl{Tok: token.VAR}}, kv, n.Body)\n", "RW.NODECL"},
+	{"yieldfrom-not-seen-by-oracle", []string{"C12", "C13"}, false, "rewriter/rewrite.go", "\t\t\t\tif callee == r.yieldFunc || callee == r.yieldFromFunc {\n\t\t\t\t\tcontains = true", "\t\t\t\tif callee == r.yieldFunc {\n\t\t\t\t\tcontains = true", "RW.ORACLE"},
+	{"for-define-init-pushed-out", []string{"C03"}, false, "rewriter/yield_rewrite.go", "\t\tassert(!isDefineStmt(stmt.Init))\n\t\tchildren = r.rewriteStmt(stmt.Init, false, children)", "\t\tchildren = r.rewriteStmt(stmt.Init, false, children)", "RW.SCOPE.INIT"},
+	{"condless-for-always-terminating", []string{"C11"}, false, "rewriter/return.go", "\t\tif s.Cond == nil && !hasBreak(s.Body) {", "\t\tif s.Cond == nil {", "RW.TERM"},
+	{"bind-continuation-dropped", []string{"C03", "C02"}, false, "rewriter/yield_ast.go", "\treturn y.SeqCall(cstBind,\n\t\tv,\n\t\ty.Thunk(body),", "\treturn y.SeqCall(cstBind,\n\t\tv,\n\t\ty.Thunk(X.Block()),", "RW.TMPL.BIND"},
+	{"combine-halves-swapped", []string{"C03", "C07", "C02"}, false, "rewriter/yield_ast.go", "\t\ty.CallDelay(s1),\n\t\ty.CallDelay(s2),", "\t\ty.CallDelay(s2),\n\t\ty.CallDelay(s1),", "RW.TMPL.COMBINE"},
+	{"yielding-post-appended-to-yielding-body", []string{"C03", "C01", "C05"}, false, "rewriter/yield_rewrite.go", "\tif body.combineRequired() {\n\t\t// combine(delay(body), delay(post))", "\tif body.combineRequired() && len(body.kinds) > 99 {\n\t\t// combine(delay(body), delay(post))", "RW.TMPL.FORPOST"},
+	{"iter-type-argument-replaced", []string{"C06"}, false, "rewriter/rewrite.go", "\t\t\t\tX.PkgSelect(r.seqImportedName, cstIterator),\n\t\t\t\tn.Index,", "\t\t\t\tX.PkgSelect(r.seqImportedName, cstIterator),\n\t\t\t\tn.X,", "RW.TMPL.ITERTYPE"},
+	{"range-temp-not-gensymed", []string{"C03", "C04", "C15"}, false, "rewriter/range.go", "\tit := X.Ident(r.gensym(cstIterVar))", "\tit := X.Ident(cstIterVar)", "RW.TMPL.RANGE.GENSYM"},
+	{"return-lowered-to-normal", []string{"C01", "C02", "C18"}, false, "rewriter/yield_rewrite.go", "\t\t\t\tc.Replace(X.Return(r.CallReturn()))", "\t\t\t\tc.Replace(X.Return(r.CallNormal()))", "RW.TMPL.RETURN"},
+	{"start-without-delay", []string{"C03", "C02"}, false, "rewriter/yield_ast.go", "\treturn y.SeqCall(cstStart,\n\t\ty.CallDelay(body),", "\treturn y.SeqCall(cstStart,\n\t\tX.Call(y.Thunk(body)),", "RW.TMPL.YIELDFUNC"},
+	{"delay-runs-thunk-at-construction", []string{"C01", "C02", "C08", "C18"}, false, "seq/seq.go", "func Delay[V any](f lazy[V]) Seq[V] {\n\treturn func(c *co[V], k cont[V]) {\n\t\tf()(c, k)\n", "func Delay[V any](f lazy[V]) Seq[V] {\n\ts := f()\n\treturn func(c *co[V], k cont[V]) {\n\t\ts(c, k)\n", "SEQ.DELAY"},
+	{"static-recursion-in-runtime", []string{"C17"}, false, "seq/seq.go", "func Delay[V any](f lazy[V]) Seq[V] {\n", "func Delay[V any](f lazy[V]) Seq[V] {\n\tif f == nil {\n\t\treturn Delay[V](f)\n\t}\n", "SEQ.STACK.REC"},
 }
 
 func runControls(c *Ctx, spec propSpec, o opts) {
@@ -109,6 +137,9 @@ func runControls(c *Ctx, spec propSpec, o opts) {
 		}
 		if !mine || (o.tier != "thorough" && !ctl.Quick) {
 			continue
+		}
+		if only := os.Getenv("VERIF_CONTROL"); only != "" && !strings.Contains(","+only+",", ","+ctl.Name+",") {
+			continue // debugging aid: run the named controls only
 		}
 		c.Controls = append(c.Controls, runControl(c, spec, ctl))
 	}
